@@ -41,7 +41,7 @@ def rule_delegation(ctx):
                 ctx.holds('R1', 'Dataset.%s -> per-variable %s' % (name, name))
     # _apply_dimarray_axis
     fi = ctx.fn(DS + '_apply_dimarray_axis')
-    ev = run(ctx, fi, mode='fork', facts={('cmp', 'is', ('call', ('attr', P_('**kwargs'), 'pop'), (const('axis'), T.CONST_NONE), ()), T.CONST_NONE): False})
+    ev = run(ctx, fi, mode='fork', facts={T.mkcmp('is', ('call', ('attr', P_('**kwargs'), 'pop'), (const('axis'), T.CONST_NONE), ()), T.CONST_NONE): False})
     ok = False
     for p in ev.paths:
         for e in p.events:
@@ -225,12 +225,12 @@ def rule_reduce_axis(ctx):
     else:
         ctx.violated('R2', fi, 'reduce_axis guard', 'variables without the dimension must be carried over unchanged')
     # requested axis
-    ev = run(ctx, fi, bind={'keepdims': T.CONST_TRUE}, facts={('cmp', 'is', P_('newaxis'), T.CONST_NONE): False}, mode='join')
+    ev = run(ctx, fi, bind={'keepdims': T.CONST_TRUE}, facts={T.mkcmp('is', P_('newaxis'), T.CONST_NONE): False}, mode='join')
     good = False
     for p in ret_paths(ev):
         for e in p.events:
             if e.kind == 'store_attr' and e.b == 'axes' and e.c[0] == 'comp' and e.c[2][0] == 'ifexp' and e.c[2][3] == P_('newaxis') \
-                    and e.c[2][1] == ('cmp', '!=', ('attr', ('elem', ('attr', SELF, 'axes'), e.c[3][0][0]), 'name'), name):
+                    and e.c[2][1] == T.mkcmp('!=', ('attr', ('elem', ('attr', SELF, 'axes'), e.c[3][0][0]), 'name'), name):
                 good = True
     if good:
         ctx.holds('R4', 'reduce_axis(keepdims, newaxis=): the axis of that name is the requested one, the others are copies')
@@ -264,7 +264,7 @@ def rule_take(ctx):
     ctx.rule('R3', 'index kinds', 4)
     ctx.rule('R5', 'metadata carried', 5)
     fi = ctx.fn(DS + 'take')
-    ev = run(ctx, fi, mode='join', oracle=lambda a, st: (True if a == ('cmp', 'is', P_('names'), T.CONST_NONE) else None))
+    ev = run(ctx, fi, mode='join', oracle=lambda a, st: (True if a == T.mkcmp('is', P_('names'), T.CONST_NONE) else None))
     gi = ('call', ('attr', SELF, '_get_indices'), (P_('indices'),), (('axis', P_('axis')), ('tol', P_('tol')), ('keepdims', P_('keepdims')), ('indexing', P_('indexing'))))
     ok = False
     for p in ret_paths(ev):
@@ -336,7 +336,7 @@ def rule_reindex(ctx):
         ctx.holds('R5', 'reindex_axis keeps attrs (through take_axis)')
         ds = ta[0]
         newax = ('sub', ('attr', ds, 'axes'), AXIS)
-        mask = ('cmp', '!=', ('attr', newax, 'values'), newvals)
+        mask = T.mkcmp('!=', ('attr', newax, 'values'), newvals)
         puts = [e for e in p.calls('put')]
         rel = [e for e in p.events if e.kind == 'store_sub' and not (e.c[0] == 'sub' and e.c[1] == SELF) and e.a[0] == 'sub' and e.a[2] == AXIS]
         if len(puts) != 1:
@@ -374,7 +374,7 @@ def rule_reindex(ctx):
                     okk = False
                 else:
                     ctx.holds('R2', 'reindex_axis fill loop skips variables lacking the dimension')
-            mn = [pol for a, pol in e.guards if a == ('cmp', 'is', METHOD, T.CONST_NONE)]
+            mn = [pol for a, pol in e.guards if a == T.mkcmp('is', METHOD, T.CONST_NONE)]
             if mn != [True]:
                 ctx.violated('R6', fi, e.node, 'fill only when method is None', node=e.node)
                 okk = False
